@@ -283,11 +283,16 @@ func (i *IOCbor) PreSign(entry iface.IPFSLogEntry) (iface.IPFSLogEntry, error) {
 		return entry, nil
 	}
 
+	// Copy drops repeated links: seal and sign the lists exactly as the entry
+	// carries them, otherwise a list with a link added twice verifies too
+	next, refs := entry.GetNext(), entry.GetRefs()
 	entry = entry.Copy()
+	entry.SetNext(next)
+	entry.SetRefs(refs)
 
 	links := &jsonable.EntryV2{}
-	links.Next = entry.GetNext()
-	links.Refs = entry.GetRefs()
+	links.Next = next
+	links.Refs = refs
 
 	cborPayload, err := i.cborMarshaller.Marshal(links)
 	if err != nil {
